@@ -293,7 +293,9 @@ def run(ctx):
     vb = ctx.anchor('asefile::palette::ColorPalette::validate_indexed_pixels')
     if vb is not None:
         cs = q.calls(vb, 'asefile::palette::ColorPalette::color')
-        ctx.floor('color() lookups in validate_indexed_pixels', len(cs), 1)
+        if not cs:
+            ctx.inst('P5', 'validator', False, 'validate_indexed_pixels no longer looks each pixel up in the palette (ColorPalette::color): an index that is '
+                     'absent from a sparse palette is accepted, a present one may be rejected', vb.span, key=vb.name + '|P5|scan')
         for c in cs:
             at = q.arg_terms(c)
             item = strip_casts(at[1])
